@@ -76,6 +76,17 @@ class Seam:
         self.bw_fault_at = None
         return armed
 
+    @contextlib.contextmanager
+    def armed(self, fault):
+        """arm for exactly one system call: `with SEAM.armed(ev.get("fault")): system_call()`; harness code after the call is never a crash point"""
+        if fault:
+            self.arm_spec(fault)
+        try:
+            yield
+        finally:
+            if fault:
+                self.disarm()
+
     def arm_spec(self, fault):
         """fault = {"kind", "seam": "kernel" | "bw" | "line", "at"}"""
         seam = fault.get("seam", "kernel")
@@ -232,6 +243,8 @@ class World:
         if sys.getrecursionlimit() != DEFAULT_RECURSION:
             sys.setrecursionlimit(DEFAULT_RECURSION)
         SEAM.reset()
+        from . import ops as _ops
+        _ops.LIST_DECOYS = None
 
     def modes(self):
         T = self.SG.T
